@@ -137,13 +137,17 @@ def g_time_ratio(rng):
              "x": P("bdsk.origin.delta", [0.8])},
             {"id": "bdsk", "type": "BDSKModel", "tree_model": "tree", "R": P("bdsk.R", [1.5, 2.0]), "delta": P("bdsk.delta", [1.0, 0.7]), "s": P("bdsk.s", [0.3, 0.4]),
              "rho": P("bdsk.rho", [0.35]), "origin": "bdsk.origin"},
+            # the origin given as the length of the edge above the root
+            {"id": "bdsk.edge", "type": "BDSKModel", "tree_model": "tree", "R": P("bdsk.edge.R", [1.3, 1.8]), "delta": P("bdsk.edge.delta", [0.9, 0.6]), "s": P("bdsk.edge.s", [0.25, 0.35]),
+             "rho": P("bdsk.edge.rho", [0.3]), "origin": P("bdsk.edge.length", [0.6]), "origin_is_root_edge": True},
             {"id": "bd", "type": "BirthDeathModel", "tree_model": "tree", "lambda": P("bd.lambda", [2.1]), "mu": P("bd.mu", [0.9]), "psi": P("bd.psi", [0.4]),
              "rho": P("bd.rho", [0.3]), "origin": "bdsk.origin"},
             {"id": "joint", "type": "JointDistributionModel", "distributions": ["like", "coal", "ctmc", "bdsk", "tree", "clock.rate", "tree.ratios", "tree.root_height.shifted"]}]
     leaves.update({"bd.lambda": "positive", "bd.mu": "positive", "bd.psi": "positive", "bd.rho": "unit"})
+    leaves.update({"bdsk.edge.R": "positive", "bdsk.edge.delta": "positive", "bdsk.edge.s": "unit", "bdsk.edge.rho": "unit", "bdsk.edge.length": "positive"})
     leaves.update({"clock.rate.unres": "real", "gtr.rates": "positive", "gtr.freqs": "simplex", "coal.theta": "positive", "expcoal.theta": "positive", "expcoal.growth": "real",
                    "bdsk.origin.delta": "positive", "bdsk.R": "positive", "bdsk.delta": "positive", "bdsk.s": "unit", "bdsk.rho": "unit"})
-    return {"name": "time-ratio", "spec": spec, "evals": ["like", "coal", "expcoal", "coalint", "ctmc", "bdsk", "bd", "tree", "joint"], "leaves": leaves,
+    return {"name": "time-ratio", "spec": spec, "evals": ["like", "coal", "expcoal", "coalint", "ctmc", "bdsk", "bdsk.edge", "bd", "tree", "joint"], "leaves": leaves,
             "derived": derived + ["clock.rate", "bdsk.origin"], "tensors": {"tree": "node_heights", "clock": "rates"}}
 
 
@@ -166,6 +170,8 @@ def g_time_shift(rng):
              "theta": {"id": "skyride.theta", "type": "TransformedParameter", "transform": "torch.distributions.ExpTransform", "x": P("skyride.theta.log", rng.normal(1, 0.5, n - 1).tolist())}},
             {"id": "gmrf.ta", "type": "GMRF", "x": "skyride.theta.log", "precision": P("gmrf.ta.precision", [2.0]), "tree_model": "tree"},
             {"id": "skygrid", "type": "PiecewiseConstantCoalescentGridModel", "tree_model": "tree", "theta": P("skygrid.theta", np.exp(rng.normal(1, 0.5, 4)).tolist()), "cutoff": 6.0},
+            # soft-sort mode of the skygrid
+            {"id": "skygrid.soft", "type": "PiecewiseConstantCoalescentGridModel", "tree_model": "tree", "theta": P("skygrid.soft.theta", [2.0, 3.5, 1.5, 4.0]), "cutoff": 6.0, "temperature": 0.05},
             {"id": "gmrf", "type": "GMRF", "x": "skygrid.theta", "precision": P("gmrf.precision", [1.5])},
             {"id": "gmrfint", "type": "GMRFGammaIntegrated", "x": "skygrid.theta", "shape": 0.5, "rate": 0.7},
             {"id": "skyglide", "type": "PiecewiseLinearCoalescentGridModel", "tree_model": "tree", "theta": P("skyglide.theta", np.exp(rng.normal(1, 0.5, 4)).tolist()), "cutoff": 6.0},
@@ -178,8 +184,8 @@ def g_time_shift(rng):
             {"id": "joint", "type": "JointDistributionModel", "distributions": ["like", "skyride", "gmrf.ta", "skygrid", "gmrf", "tree", "tree.shifts", "skyride.theta"]}]
     leaves.update({"clock.mean": "positive", "clock.rates.unscaled": "positive", "kappa": "positive", "freqs": "simplex", "pinv": "unit", "skyride.theta.log": "real",
                    "gmrf.ta.precision": "positive", "skygrid.theta": "positive", "gmrf.precision": "positive", "skyglide.theta": "positive", "origin.delta": "positive",
-                   "skyglide.short.theta": "positive", "skygrid.short.theta": "positive"})
-    return {"name": "time-shift", "spec": spec, "evals": ["like", "skyride", "gmrf.ta", "skygrid", "gmrf", "gmrfint", "skyglide", "skyglide.short", "skygrid.short", "tree", "joint"], "leaves": leaves,
+                   "skyglide.short.theta": "positive", "skygrid.short.theta": "positive", "skygrid.soft.theta": "positive"})
+    return {"name": "time-shift", "spec": spec, "evals": ["like", "skyride", "gmrf.ta", "skygrid", "gmrf", "gmrfint", "skyglide", "skyglide.short", "skygrid.short", "skygrid.soft", "tree", "joint"], "leaves": leaves,
             "derived": derived + ["clock.rates", "skyride.theta", "origin", "root.view"], "tensors": {"tree": "node_heights", "clock": "rates", "site": ["rates()", "probabilities()"]}}
 
 
